@@ -27,4 +27,5 @@ func main() {
 	b, _ := json.MarshalIndent(res, "", " ")
 	fmt.Println(string(b))
 	fmt.Println("elapsed", time.Since(t0))
+	leakReport()
 }
